@@ -357,15 +357,16 @@ Definition rcp_of (v : cbor) : option recipient :=
   end.
 
 (** [decode_msg]: the third item (payload) is overwritten with the target's
-    BTSD whatever it was, so it is not inspected here. *)
+    BTSD whatever it was, so it is not inspected here; pycose pops the items it
+    needs and ignores further ones. *)
 Definition cose_of_item (k : ckind) (v : cbor) : option cose :=
   match k, v with
-  | KMac0, CArr [CBstr p; CMap u; _; CBstr t] => Some (mkCose p u t [])
-  | KSign1, CArr [CBstr p; CMap u; _; CBstr t] => Some (mkCose p u t [])
-  | KMac, CArr [CBstr p; CMap u; _; CBstr t; CArr rs] =>
+  | KMac0, CArr (CBstr p :: CMap u :: _ :: CBstr t :: _) => Some (mkCose p u t [])
+  | KSign1, CArr (CBstr p :: CMap u :: _ :: CBstr t :: _) => Some (mkCose p u t [])
+  | KMac, CArr (CBstr p :: CMap u :: _ :: CBstr t :: CArr rs :: _) =>
       option_map (mkCose p u t) (all_some (map rcp_of rs))
-  | KEnc0, CArr [CBstr p; CMap u; _] => Some (mkCose p u [] [])
-  | KEnc, CArr [CBstr p; CMap u; _; CArr rs] =>
+  | KEnc0, CArr (CBstr p :: CMap u :: _ :: _) => Some (mkCose p u [] [])
+  | KEnc, CArr (CBstr p :: CMap u :: _ :: CArr rs :: _) =>
       option_map (mkCose p u []) (all_some (map rcp_of rs))
   | _, _ => None
   end.
@@ -830,6 +831,19 @@ Definition direct_aad (wire : bytes) (sec : cblock) (source : cbor) (s : scope) 
 Record opview := mkOV {
   ov_input : bytes; ov_tag : bytes; ov_keyinfo : bytes; ov_data : bytes }.
 
+Definition has_x5 (u : list (cbor * cbor)) : bool :=
+  match lookup_hdr u 33, lookup_hdr u 34 with
+  | None, None => false
+  | _, _ => true
+  end.
+
+Definition uses_cert (u : list (cbor * cbor)) (addl_unprot : option bytes) : bool :=
+  has_x5 u ||
+  match addl_unprot with
+  | Some x => match decode_all 8 x with Some (CMap kvs) => has_x5 kvs | _ => false end
+  | None => false
+  end.
+
 Definition opview_of (b : bundle) (sec : cblock) (a : asb) (sp : secparams) (t : N) (rs : list (N * cbor))
   : option opview :=
   match find_block b t, rs with
@@ -838,7 +852,16 @@ Definition opview_of (b : bundle) (sec : cblock) (a : asb) (sp : secparams) (t :
       | Some (kind, m) =>
           let o := mkOp kind (c_protected m) b sec (a_source a) (sp_scope sp) (sp_addl sp) tgt in
           let ki := encode (CArr [CMap (c_unprot m); CArr (map rcp_item (c_recips m));
-                                  match sp_addl_unprot sp with Some x => CBstr x | None => CSimple 22 end]) in
+                                  match sp_addl_unprot sp with Some x => CBstr x | None => CSimple 22 end;
+                                  (* key resolution by certificate (x5chain 33 / x5t 34 present)
+                                     compares the security source as received (not normalised)
+                                     with the certificate's node id *)
+                                  if uses_cert (c_unprot m) (sp_addl_unprot sp) then
+                                    match decode_seq asb_fuel (cb_btsd sec) with
+                                    | Some (_ :: _ :: _ :: src :: _) => src
+                                    | _ => CSimple 22
+                                    end
+                                  else CSimple 22]) in
           match kind with
           | KMac0 | KMac | KSign1 =>
               if cb_type sec =? 11 then option_map (fun i => mkOV i (c_tag m) ki []) (mac_input o) else None
@@ -905,15 +928,15 @@ Fixpoint views_cmp (x y : list opview) : N :=
 Fixpoint blocks_cmp (x y : list (N * list opview)) : N :=
   match x, y with
   | [], [] => 1
-  | (n, a) :: x', (n', b) :: y' =>
-      if n =? n' then
-        match views_cmp a b, blocks_cmp x' y' with
-        | 0, _ | _, 0 => 0
-        | 1, r => r
-        | 6, _ | _, 6 => 6
-        | _, _ => 2
-        end
-      else 0
+  | (_, a) :: x', (_, b) :: y' =>
+      (* security blocks are paired by position: the block number is covered
+         only through scope key -2 *)
+      match views_cmp a b, blocks_cmp x' y' with
+      | 0, _ | _, 0 => 0
+      | 1, r => r
+      | 6, _ | _, 6 => 6
+      | _, _ => 2
+      end
   | _, _ => 0
   end.
 
